@@ -81,8 +81,13 @@ def explore(ctx, shard, acc, make_monitors, n_histories, steps=(10, 30),
     try:
         run()
         # shrink each root cause by bounded delta debugging on the step list
+        import os
         for k, (size, case, msg, sig) in sorted(found.items()):
-            small = ddmin(scratch, case, make_monitors, sig, inject=inject)
+            if os.environ.get('VERIF_NO_SHRINK'):
+                small = case      # (bulk sensitivity runs only want yes/no)
+            else:
+                small = ddmin(scratch, case, make_monitors, sig,
+                              inject=inject)
             acc.violation(msg, small, sig)
     finally:
         scratch.cleanup()
